@@ -4,8 +4,9 @@ namespace MxModel.DocQuote
 
 /-! ### the escape table -/
 
-/-- `_DOCSTR_ESCAPES` as a list of pairs -/
-def escapeTable : List (Char × List Char) :=
+/-- the table the theorems of this file were proved for; `escapeTable` (regenerated from the code)
+is compared with it by the kernel on every build -/
+def escapeTableModelled : List (Char × List Char) :=
   [('\\', ['\\', '\\']),
    (Char.ofNat 0, ['\\', 'x', '0', '0']),
    ('\r', ['\\', 'r']),
@@ -18,22 +19,58 @@ def escapeTable : List (Char × List Char) :=
    (Char.ofNat 0x2028, ['\\', 'u', '2', '0', '2', '8']),
    (Char.ofNat 0x2029, ['\\', 'u', '2', '0', '2', '9'])]
 
-theorem escapeOf_some {c : Char} {e : List Char} (h : escapeOf c = some e) : (c, e) ∈ escapeTable := by
-  unfold escapeOf at h
-  repeat' split at h
-  all_goals first
-    | (cases h; subst_vars; decide)
-    | cases h
+/-- the escape table of the code is the one modelled -/
+theorem escapeTable_eq : escapeTable = escapeTableModelled := by decide +kernel
+
+theorem lookup_mem' {α β : Type} [BEq α] [LawfulBEq α] (l : List (α × β)) (a : α) (b : β)
+    (h : l.lookup a = some b) : (a, b) ∈ l := by
+  induction l with
+  | nil => simp at h
+  | cons x xs ih =>
+    obtain ⟨k, v⟩ := x
+    simp only [List.lookup] at h
+    split at h
+    · rename_i heq
+      have : a = k := by simpa using heq
+      simp at h; subst this; subst h; simp
+    · exact List.mem_cons_of_mem _ (ih h)
+
+theorem lookup_none_not_key {α β : Type} [BEq α] [LawfulBEq α] (l : List (α × β)) (a : α)
+    (h : l.lookup a = none) : ∀ p ∈ l, p.1 ≠ a := by
+  induction l with
+  | nil => intro p hp; cases hp
+  | cons x xs ih =>
+    obtain ⟨k, v⟩ := x
+    simp only [List.lookup] at h
+    split at h
+    · cases h
+    · rename_i heq
+      intro p hp
+      rcases List.mem_cons.mp hp with rfl | hp
+      · intro e
+        have : (a == k) = true := by simp only [beq_iff_eq]; exact e.symm
+        rw [this] at heq; cases heq
+      · exact ih h p hp
+
+theorem escapeOf_some {c : Char} {e : List Char} (h : escapeOf c = some e) : (c, e) ∈ escapeTable :=
+  lookup_mem' _ _ _ h
+
+/-- the backslash and every character that is unsafe in a source text is a key of the table -/
+theorem unsafe_are_keys : ∀ c ∈ '\\' :: sourceUnsafe, ∃ p ∈ escapeTable, p.1 = c := by
+  decide +kernel
 
 theorem escapeOf_none {c : Char} (h : escapeOf c = none) : c ≠ '\\' ∧ c ∉ sourceUnsafe := by
-  unfold escapeOf at h
-  repeat' split at h
-  all_goals first
-    | (simp only [sourceUnsafe, List.mem_cons, List.not_mem_nil, or_false, not_or]; simp_all; done)
-    | cases h
+  have hk := lookup_none_not_key _ _ h
+  constructor
+  · intro e
+    obtain ⟨p, hp, hpc⟩ := unsafe_are_keys c (by simp [e])
+    exact hk p hp hpc
+  · intro hin
+    obtain ⟨p, hp, hpc⟩ := unsafe_are_keys c (List.mem_cons_of_mem _ hin)
+    exact hk p hp hpc
 
 /-- every entry is in the table under its own key (the table is the function) -/
-theorem escapeOf_table : ∀ p ∈ escapeTable, escapeOf p.1 = some p.2 := by decide
+theorem escapeOf_table : ∀ p ∈ escapeTable, escapeOf p.1 = some p.2 := by decide +kernel
 
 /-! ### newline normalisation -/
 
@@ -103,7 +140,8 @@ theorem scanTok_append (q : Nat) (p : List Char) : ∀ (t r s : List Char),
 /-- the tokenizer passes over one escape of the table and its run counter is 0 afterwards -/
 theorem scanTok_escape {c : Char} {e : List Char} (h : (c, e) ∈ escapeTable) (q : Nat) (x : List Char) :
     scanTok q (e ++ x) = (scanTok 0 x).map (fun r => (e ++ r.1, r.2)) := by
-  simp only [escapeTable, List.mem_cons, List.not_mem_nil, or_false, Prod.mk.injEq] at h
+  rw [escapeTable_eq] at h
+  simp only [escapeTableModelled, List.mem_cons, List.not_mem_nil, or_false, Prod.mk.injEq] at h
   rcases h with ⟨_, rfl⟩ | ⟨_, rfl⟩ | ⟨_, rfl⟩ | ⟨_, rfl⟩ | ⟨_, rfl⟩ | ⟨_, rfl⟩ | ⟨_, rfl⟩ | ⟨_, rfl⟩ |
     ⟨_, rfl⟩ | ⟨_, rfl⟩ | ⟨_, rfl⟩ <;>
   simp [scanTok_bs, scanTok_other, Option.map_map, Function.comp_def]
@@ -177,7 +215,8 @@ theorem dec_bs_quote (x : List Char) : dec .text ('\\' :: '"' :: x) = (dec .text
 /-- every escape the writer uses is decoded to the character it was written for -/
 theorem dec_escape {c : Char} {e : List Char} (h : (c, e) ∈ escapeTable) (x : List Char) :
     dec .text (e ++ x) = (dec .text x).map (c :: ·) := by
-  simp only [escapeTable, List.mem_cons, List.not_mem_nil, or_false, Prod.mk.injEq] at h
+  rw [escapeTable_eq] at h
+  simp only [escapeTableModelled, List.mem_cons, List.not_mem_nil, or_false, Prod.mk.injEq] at h
   rcases h with ⟨rfl, rfl⟩ | ⟨rfl, rfl⟩ | ⟨rfl, rfl⟩ | ⟨rfl, rfl⟩ | ⟨rfl, rfl⟩ | ⟨rfl, rfl⟩ | ⟨rfl, rfl⟩ |
     ⟨rfl, rfl⟩ | ⟨rfl, rfl⟩ | ⟨rfl, rfl⟩ | ⟨rfl, rfl⟩ <;>
   simp [dec, escKind, hexVal, emit]
